@@ -116,6 +116,15 @@ func (ib *inbound) decide(cond ssa.Value, f *pathFacts) int {
 	v := ib.val
 	switch x := cond.(type) {
 	case *ssa.BinOp:
+		// every spelling of "approval callbacks are registered": n > 0, n != 0, n >= 1 and the negations n == 0, n < 1, n <= 0
+		if k, ok := constInt(x.Y); ok && isApprovalCallbackCount(x.X, 0) {
+			switch {
+			case (x.Op == token.GTR && k == 0) || (x.Op == token.NEQ && k == 0) || (x.Op == token.GEQ && k == 1):
+				return tri(v.Approval)
+			case (x.Op == token.EQL && k == 0) || (x.Op == token.LSS && k == 1) || (x.Op == token.LEQ && k == 0):
+				return tri(!v.Approval)
+			}
+		}
 		switch x.Op {
 		case token.EQL, token.NEQ:
 			neg := x.Op == token.NEQ
